@@ -232,18 +232,6 @@ theorem nlindent_ascii (n : Nat) : AllAscii (10 :: indentOf n) := by
   · decide
   · exact indent_ascii n c hc
 
-theorem varCStr_utf8 (v : EV) (h : UtfTree v) : ValidUtf8 (varCStr v) := by
-  cases v with
-  | str s => exact h
-  | bool b => cases b <;> exact valid_of_ascii _ (allAscii_lit _ (by decide))
-  | none => exact .nil
-  | null => exact valid_of_ascii _ (allAscii_lit _ (by decide))
-  | int i => simp only [varCStr]; exact valid_of_ascii _ (allAscii_lit _ (by decide))
-  | num b => simp only [varCStr]; exact valid_of_ascii _ (allAscii_lit _ (by decide))
-  | flt b => simp only [varCStr]; exact valid_of_ascii _ (allAscii_lit _ (by decide))
-  | arr l => simp only [varCStr]; exact valid_of_ascii _ (allAscii_lit _ (by decide))
-  | obj ms => simp only [varCStr]; exact valid_of_ascii _ (allAscii_lit _ (by decide))
-
 theorem classOf_utf8 (ms : List (Bytes × EV)) (h : UtfTreeM ms) : ValidUtf8 ((classOf ms).getD []) := by
   induction ms with
   | nil => exact .nil
@@ -251,7 +239,11 @@ theorem classOf_utf8 (ms : List (Bytes × EV)) (h : UtfTreeM ms) : ValidUtf8 ((c
     obtain ⟨k, v⟩ := kv
     simp only [classOf]
     split
-    · exact varCStr_utf8 v h.2.1
+    · cases v <;> simp only [clsName, Option.getD_none] <;> try exact .nil
+      rename_i s
+      split
+      · exact h.2.1
+      · exact .nil
     · exact ih h.2.2
 
 theorem itoa_ascii (i : Int) (h1 : -2147483648 ≤ i) (h2 : i ≤ 2147483647) : AllAscii (itoa i) :=
